@@ -5,9 +5,12 @@ Main result `counters_eq_recount_partial`: for every operation sequence of the m
 kinds: connects, max-count changes, full and incremental volume heartbeats, full and incremental EC
 heartbeats, disconnects, refresh rounds — the invariant `CountersOk` (every disk counter = recount of
 what is registered on the disk; node = disk; rack / data center / topology = sums over the connected
-servers) is preserved, provided every incremental deletion names a volume that is registered at that
-moment with the same remote flag (`DelsOk`; the excluded inputs are the known findings inc/volume-count
-and inc/remote-volume-count, whose witnesses are proved below).  Everything else in `OpOkE` is
+servers) is preserved.  Incremental deletions need NO condition any more: `DeltaUpdateVolumes` was repaired in /repo
+(f55c35ee: a deletion message for a volume that is not registered is ignored; 4838d419: the remote flag is
+taken from the registered volume), the model mirrors the repaired code (`Core.delReg`), and the former
+hypothesis `DelsOk` (= the findings inc/volume-count and inc/remote-volume-count) is gone; the former
+failing histories are now proved exact below (`delete_unregistered_recount_exact`,
+`delete_remote_incremental_recount_exact`).  What is left in `OpOkE` is
 well-formedness of the messages (ids and disk types in the modelled range; a full EC heartbeat lists a
 volume once and under the disk type its shards are registered on — the recorded assumptions of
 props/C12/prop.json).  The EC conjunct through `UpdateEcShards` rests on `popcount_diff`
@@ -283,25 +286,28 @@ theorem ok_updateVolumes {c : Core} {N : Nat} {w : Prop} (h : Ok c N w) (s : Nat
   have a := ok_addAll g1.1 s vs (by rw [g1.2.1, g0.2.1]; exact hc) hs (fun x hx => by rw [g1.2.2, g0.2.2]; exact hv x hx)
   exact ⟨a.1, a.2.trans (g1.2.trans g0.2)⟩
 
-/-- every deletion of an incremental heartbeat names a volume that is registered at that moment, with
-    the remote flag the registration has (the short message always says "not remote") -/
-def DelsOk (c : Core) (s : Nat) : List VInfo → Prop
-  | [] => True
-  | v :: vs => (∃ old, c.vols s v.key.disk v.id = some old ∧ old.remote = v.remote) ∧ v.id < c.nVid + 1 ∧
-      DelsOk (c.delVol s v.key.disk v.id v.remote) s vs
+/-- one deletion message of an incremental heartbeat (`delReg`): a registered volume is deleted with the
+    decrement its registration calls for; a message for a volume that is not registered changes nothing -/
+theorem ok_delReg {c : Core} {N : Nat} {w : Prop} (h : Ok c N w) (s : Nat) (v : VInfo)
+    (hc : c.conn s = true) (hs : s < N) (hv : v.id < c.nVid + 1) :
+    Ok (c.delReg s v) N w ∧ Same (c.delReg s v) c := by
+  unfold Core.delReg
+  split
+  · next old hreg => exact ok_delVol h s v.key.disk v.id old hc hs hv hreg
+  · exact ⟨h, Same.refl c⟩
 
+/-- the deletions of DeltaUpdateVolumes keep the accounting exact for ANY deletion messages (ids in the
+    modelled range): duplicates, stale messages, messages for remote volumes -/
 theorem ok_dels {c : Core} {N : Nat} {w : Prop} (h : Ok c N w) (s : Nat) (ds : List VInfo)
-    (hc : c.conn s = true) (hs : s < N) (hd : DelsOk c s ds) :
-    Ok (ds.foldl (fun c v => c.delVol s v.key.disk v.id v.remote) c) N w ∧
-      Same (ds.foldl (fun c v => c.delVol s v.key.disk v.id v.remote) c) c := by
+    (hc : c.conn s = true) (hs : s < N) (hd : ∀ v ∈ ds, v.id < c.nVid + 1) :
+    Ok (ds.foldl (fun c v => c.delReg s v) c) N w ∧
+      Same (ds.foldl (fun c v => c.delReg s v) c) c := by
   induction ds generalizing c with
   | nil => exact ⟨h, Same.refl c⟩
   | cons v vs ih =>
-    obtain ⟨⟨old, hreg, hrem⟩, hv, hrest⟩ := hd
     simp only [List.foldl_cons]
-    have h1 := ok_delVol h s v.key.disk v.id old hc hs hv hreg
-    rw [hrem] at h1
-    have h2 := ih h1.1 (by rw [h1.2.1]; exact hc) hrest
+    have h1 := ok_delReg h s v hc hs (hd v (by simp))
+    have h2 := ih h1.1 (by rw [h1.2.1]; exact hc) (fun x hx => by rw [h1.2.2]; exact hd x (by simp [hx]))
     exact ⟨h2.1, h2.2.trans h1.2⟩
 
 theorem ok_news {c : Core} {N : Nat} {w : Prop} (h : Ok c N w) (s : Nat) (vs : List VInfo)
@@ -315,9 +321,9 @@ theorem ok_news {c : Core} {N : Nat} {w : Prop} (h : Ok c N w) (s : Nat) (vs : L
     have h2 := ih h1.1 (by rw [h1.2.1]; exact hc) (fun x hx => by rw [h1.2.2]; exact hv x (by simp [hx]))
     exact ⟨h2.1, h2.2.trans h1.2⟩
 
-/-- DataNode.DeltaUpdateVolumes (incremental heartbeat), for deletions of registered volumes -/
+/-- DataNode.DeltaUpdateVolumes (incremental heartbeat) keeps the accounting exact, whatever it deletes -/
 theorem ok_deltaUpdateVolumes {c : Core} {N : Nat} {w : Prop} (h : Ok c N w) (s : Nat) (news dels : List VInfo)
-    (hc : c.conn s = true) (hs : s < N) (hv : ∀ v ∈ news, v.id < c.nVid + 1) (hd : DelsOk c s dels) :
+    (hc : c.conn s = true) (hs : s < N) (hv : ∀ v ∈ news, v.id < c.nVid + 1) (hd : ∀ v ∈ dels, v.id < c.nVid + 1) :
     Ok (c.deltaUpdateVolumes s news dels) N w ∧ Same (c.deltaUpdateVolumes s news dels) c := by
   unfold Core.deltaUpdateVolumes
   have h1 := ok_dels h s dels hc hs hd
@@ -657,13 +663,12 @@ theorem step_core (st : St) (op : Op) : (step st op).toCore = stepCore st.toCore
 
 /-! ## the property theorems -/
 
-/-- well-formed operation in state `c` with `N` modelled servers: indices in range; the only
-    semantic condition is `DelsOk` on incremental deletions -/
+/-- well-formed operation in state `c` with `N` modelled servers: indices in range, nothing else -/
 def OpOk (c : Core) (N : Nat) : Op → Prop
   | .conn s _ _ _ _ => s < N
   | .max s _ _ => s < N
   | .full s vs => s < N ∧ ∀ v ∈ vs, v.id < c.nVid + 1
-  | .inc s ns ds => s < N ∧ (∀ v ∈ ns, v.id < c.nVid + 1) ∧ (c.conn s = true → DelsOk c s ds)
+  | .inc s ns ds => s < N ∧ ∀ v ∈ ns ++ ds, v.id < c.nVid + 1
   | .ecfull s _ => s < N
   | .ecinc s ns ds => s < N ∧ ∀ e ∈ ns ++ ds, e.id < c.nVid + 1
   | .disc s => s < N
@@ -694,7 +699,9 @@ theorem ok_step {c : Core} {N : Nat} {w : Prop} (h : Ok c N w) (op : Op) (hop : 
   | inc s ns ds =>
     simp only [stepCore]
     split
-    · next hc => have := ok_deltaUpdateVolumes h s ns ds hc hop.1 hop.2.1 (hop.2.2 hc); exact ⟨this.1.mono (·.1), this.2.2⟩
+    · next hc =>
+      have := ok_deltaUpdateVolumes h s ns ds hc hop.1 (fun v hv => hop.2 v (by simp [hv])) (fun v hv => hop.2 v (by simp [hv]))
+      exact ⟨this.1.mono (·.1), this.2.2⟩
     · exact ⟨h.mono (·.1), rfl⟩
   | ecfull s es =>
     simp only [stepCore]
@@ -752,7 +759,7 @@ theorem ok_run {st : St} {N : Nat} {w : Prop} (h : Ok st.toCore N w) (ops : List
     exact h2.mono (fun ⟨hw, hall⟩ => ⟨⟨hw, hall op (by simp)⟩, fun o ho => hall o (by simp [ho])⟩)
 
 /-- C12, invariant step: `counters_eq_recount` is preserved by every operation other than a full EC
-    heartbeat, for every well-formed operation (`OpOk`: incremental deletions name registered volumes) -/
+    heartbeat, for every operation with indices in range (`OpOk`) -/
 theorem counters_step_partial (st : St) (N : Nat) (op : Op) (h : CountersOk st.toCore N)
     (hop : OpOk st.toCore N op) (hne : ¬ isEcFull op) : CountersOk (step st op).toCore N := by
   have := (ok_step (w := True) ⟨h.hier, h.vols, fun _ => h.ec⟩ op hop).1
@@ -816,10 +823,10 @@ theorem updateVolumes_ecs (c : Core) (s : Nat) (vs : List VInfo) : (c.updateVolu
 
 theorem deltaUpdateVolumes_ecs (c : Core) (s : Nat) (news dels : List VInfo) : (c.deltaUpdateVolumes s news dels).ecs = c.ecs := by
   unfold Core.deltaUpdateVolumes
-  have h1 : ∀ (l : List VInfo) (c : Core), (l.foldl (fun c v => c.delVol s v.key.disk v.id v.remote) c).ecs = c.ecs := by
+  have h1 : ∀ (l : List VInfo) (c : Core), (l.foldl (fun c v => c.delReg s v) c).ecs = c.ecs := by
     intro l; induction l with
     | nil => intro c; rfl
-    | cons a l ih => intro c; simp only [List.foldl_cons]; rw [ih]; rfl
+    | cons a l ih => intro c; simp only [List.foldl_cons]; rw [ih]; unfold Core.delReg; split <;> rfl
   have h2 : ∀ (l : List VInfo) (c : Core), (l.foldl (fun c v => (c.addOrUpdate s v).1) c).ecs = c.ecs := by
     intro l; induction l with
     | nil => intro c; rfl
@@ -888,7 +895,7 @@ def EcOpOk (c : Core) : Op → Prop
   | .ecinc _ ns ds => ∀ e ∈ ns ++ ds, e.disk < 2
   | _ => True
 
-/-- well-formed operation: `OpOk` (ranges; `DelsOk` for incremental deletions) + `EcOpOk` -/
+/-- well-formed operation: `OpOk` (ranges) + `EcOpOk` -/
 def OpOkE (c : Core) (N : Nat) (op : Op) : Prop := OpOk c N op ∧ EcOpOk c op
 
 theorem ecDisks_step {c : Core} (hd : EcDisksOk c) (op : Op) (he : EcOpOk c op) : EcDisksOk (stepCore c op) := by
@@ -961,36 +968,20 @@ theorem counters_step_all_partial (st : St) (N : Nat) (op : Op) (h : CountersOk 
     max-count changes, full and incremental volume heartbeats, full and incremental EC heartbeats,
     disconnects, refresh rounds — every disk's volume / remote / EC counters equal the recount of what is
     registered on it, every node equals its disk, and every rack, data center and the topology equal the
-    sums over their connected servers.  The only semantic hypothesis inside `OpsOkE` is `DelsOk`
-    (incremental deletions name registered volumes with the right remote flag = the two open findings);
-    the rest is well-formedness of the messages. -/
+    sums over their connected servers.  `OpsOkE` is well-formedness of the messages only (ids and disk types
+    in the modelled range; a full EC heartbeat lists an EC volume once, under the disk type its shards are
+    registered on); no condition on what an incremental heartbeat deletes (duplicate, stale, remote). -/
 theorem counters_eq_recount_partial (limit : Nat) (asMin : Bool) (nVid N : Nat) (ops : List Op)
     (hops : OpsOkE (init limit asMin nVid) N ops) : CountersOk (run (init limit asMin nVid) ops).toCore N := by
   have := (okE_run (ok_init limit asMin nVid N) (fun _ _ _ _ => rfl) ops hops).1
   exact ⟨this.hier, this.vols, this.ec trivial⟩
 
 /-- `OpOkE` in a form `decide` can evaluate (bounded quantifiers only) -/
-def DelsOkB (c : Core) (s : Nat) : List VInfo → Bool
-  | [] => true
-  | v :: vs => (match c.vols s v.key.disk v.id with | some old => old.remote == v.remote | none => false) &&
-      decide (v.id < c.nVid + 1) && DelsOkB (c.delVol s v.key.disk v.id v.remote) s vs
-
-theorem delsOk_of_B (c : Core) (s : Nat) (l : List VInfo) : DelsOkB c s l = true → DelsOk c s l := by
-  induction l generalizing c with
-  | nil => intro _; trivial
-  | cons v vs ih =>
-    intro h
-    simp only [DelsOkB, Bool.and_eq_true, decide_eq_true_eq] at h
-    refine ⟨?_, h.1.2, ih _ h.2⟩
-    cases hv : c.vols s v.key.disk v.id with
-    | none => simp [hv] at h
-    | some old => exact ⟨old, rfl, by simpa [hv] using h.1.1⟩
-
 def OpOkB (c : Core) (N : Nat) : Op → Prop
   | .conn s _ _ _ _ => s < N
   | .max s _ _ => s < N
   | .full s vs => s < N ∧ ∀ v ∈ vs, v.id < c.nVid + 1
-  | .inc s ns ds => s < N ∧ (∀ v ∈ ns, v.id < c.nVid + 1) ∧ (c.conn s = true → DelsOkB c s ds = true)
+  | .inc s ns ds => s < N ∧ ∀ v ∈ ns ++ ds, v.id < c.nVid + 1
   | .ecfull s es => s < N ∧ (c.conn s = true →
       (es.map (·.id)).Nodup ∧ (∀ e ∈ es, e.id < c.nVid + 1 ∧ e.disk < 2) ∧ ∀ e ∈ es, ∀ t, t < 2 → c.ecs s t e.id ≠ 0 → t = e.disk)
   | .ecinc s ns ds => s < N ∧ (∀ e ∈ ns ++ ds, e.id < c.nVid + 1) ∧ ∀ e ∈ ns ++ ds, e.disk < 2
@@ -1005,7 +996,7 @@ theorem opOkE_of_B (c : Core) (N : Nat) (op : Op) : OpOkB c N op → OpOkE c N o
   | conn s dc rack mh ms => intro h; exact ⟨h, trivial⟩
   | max s mh ms => intro h; exact ⟨h, trivial⟩
   | full s vs => intro h; exact ⟨h, trivial⟩
-  | inc s ns ds => intro h; exact ⟨⟨h.1, h.2.1, fun hc => delsOk_of_B c s ds (h.2.2 hc)⟩, trivial⟩
+  | inc s ns ds => intro h; exact ⟨h, trivial⟩
   | ecfull s es => intro h; exact ⟨h.1, fun hc => ⟨(h.2 hc).1, (h.2 hc).2.1, (h.2 hc).2.2⟩⟩
   | ecinc s ns ds => intro h; exact ⟨⟨h.1, h.2.1⟩, h.2.2⟩
   | disc s => intro h; exact ⟨h, trivial⟩
@@ -1030,26 +1021,62 @@ theorem ecfull_duplicate_entry_counts_twice :
     let st := run (init 1000 false 12) [.conn 0 0 0 5 0, .ecfull 0 [⟨3, 0, 0, 7⟩, ⟨3, 0, 0, 7⟩]]
     (st.cDisk 0 0).ec = 6 ∧ recountEc st.toCore 0 0 = 3 := by decide
 
-/-! ## the full statement is false of the code: witnesses of the two known findings -/
+/-! ## the two repaired findings: the histories that used to break the recount are now exact
 
-/-- finding inc/volume-count: a delete for a volume that is not registered makes the disk's volume
-    counter −1 while nothing is registered -/
-theorem delete_unregistered_breaks_recount :
+Before f55c35ee / 4838d419 the model (like the code) gave `(st.cDisk 0 0).vol = -1` resp.
+`(st.cDisk 0 0).rem = 1` on these histories (corpus/C12/delete_unregistered.ops,
+corpus/C12/delete_remote_incremental.ops); the judge classes inc/volume-count and
+inc/remote-volume-count stay in the judge, so a regression of the code is reported. -/
+
+/-- a deletion message for a volume that is not registered (never registered, or already deleted: the
+    second message of a duplicate) is within the hypotheses of the main theorem -/
+example : OpsOkE (init 1000 false 12) 4
+    [.conn 0 0 0 5 0, .inc 0 [] [⟨3, 0, false, false, ⟨0, 0, 0, 0⟩⟩],
+     .inc 0 [⟨3, 0, false, false, ⟨0, 0, 0, 0⟩⟩] [], .inc 0 [] [⟨3, 0, false, false, ⟨0, 0, 0, 0⟩⟩, ⟨3, 0, false, false, ⟨0, 0, 0, 0⟩⟩]] := by
+  have wf : ∀ (c : Core) (N : Nat) (op : Op), decide (OpOkB c N op) = true → OpOkE c N op := fun c N op h => opOkE_of_B c N op (of_decide_eq_true h)
+  exact ⟨wf _ _ _ (by decide), wf _ _ _ (by decide), wf _ _ _ (by decide), wf _ _ _ (by decide), trivial⟩
+
+/-- former finding inc/volume-count: a delete for a volume that is not registered leaves the counters alone -/
+theorem delete_unregistered_recount_exact :
     let st := run (init 1000 false 12) [.conn 0 0 0 5 0, .inc 0 [] [⟨3, 0, false, false, ⟨0, 0, 0, 0⟩⟩]]
-    (st.cDisk 0 0).vol = -1 ∧ recountVol st.toCore 0 0 = 0 := by decide
+    (st.cDisk 0 0).vol = 0 ∧ recountVol st.toCore 0 0 = 0 ∧ (st.cTopo 0).vol = 0 := by decide
 
-/-- finding inc/remote-volume-count: a remote volume deleted by an incremental (short) message leaves
-    the remote counter at 1 -/
-theorem delete_remote_incremental_breaks_recount :
+/-- former finding inc/remote-volume-count: a remote volume deleted by an incremental (short) message,
+    whose `remote` field is always false, takes the remote counter back to 0 -/
+theorem delete_remote_incremental_recount_exact :
     let st := run (init 1000 false 12)
       [.conn 0 0 0 5 0, .full 0 [⟨3, 10, false, true, ⟨0, 0, 0, 0⟩⟩], .inc 0 [] [⟨3, 0, false, false, ⟨0, 0, 0, 0⟩⟩]]
-    (st.cDisk 0 0).rem = 1 ∧ recountRem st.toCore 0 0 = 0 := by decide
+    (st.cDisk 0 0).rem = 0 ∧ recountRem st.toCore 0 0 = 0 ∧ (st.cDisk 0 0).vol = 0 ∧ (st.cTopo 0).rem = 0 := by decide
+
+/-- the old behaviour, kept as a parametric definition: every deletion message decrements, with the
+    remote flag of the message.  On the two histories it breaks the recount — this is what the judge
+    classes inc/volume-count and inc/remote-volume-count detect in the implementation. -/
+def deltaUpdateVolumesOld (c : Core) (s : Nat) (news dels : List VInfo) : Core :=
+  let c := dels.foldl (fun c v => c.delVol s v.key.disk v.id v.remote) c
+  news.foldl (fun c v => (c.addOrUpdate s v).1) c
+
+theorem old_delete_unregistered_breaks_recount :
+    let c := ((init 1000 false 12).toCore.connect 0 0 0 5 0)
+    let c' := deltaUpdateVolumesOld c 0 [] [⟨3, 0, false, false, ⟨0, 0, 0, 0⟩⟩]
+    (c'.cDisk 0 0).vol = -1 ∧ recountVol c' 0 0 = 0 := by decide
+
+theorem old_delete_remote_incremental_breaks_recount :
+    let c := (((init 1000 false 12).toCore.connect 0 0 0 5 0).updateVolumes 0 [⟨3, 10, false, true, ⟨0, 0, 0, 0⟩⟩]).1
+    let c' := deltaUpdateVolumesOld c 0 [] [⟨3, 0, false, false, ⟨0, 0, 0, 0⟩⟩]
+    (c'.cDisk 0 0).rem = 1 ∧ recountRem c' 0 0 = 0 := by decide
+
+/-- the repaired and the old DeltaUpdateVolumes agree exactly on the inputs the old hypothesis `DelsOk`
+    admitted: every deletion names a volume registered at that moment with the message's remote flag -/
+theorem delReg_eq_old_of_registered (c : Core) (s : Nat) (v old : VInfo)
+    (hreg : c.vols s v.key.disk v.id = some old) (hrem : old.remote = v.remote) :
+    c.delReg s v = c.delVol s v.key.disk v.id v.remote := by
+  simp [Core.delReg, hreg, hrem]
 
 /-- the hypotheses of the main theorem are satisfiable by a history with every kind of operation -/
 example : OpsOk (init 1000 false 12) 4
     [.conn 0 0 0 5 4, .conn 1 0 1 5 0, .max 0 7 9, .full 0 [⟨3, 10, false, true, ⟨0, 1, 0, 0⟩⟩],
      .inc 1 [⟨3, 0, false, false, ⟨0, 1, 0, 0⟩⟩] [], .ecinc 1 [⟨5, 0, 0, 7⟩] [⟨5, 0, 0, 2⟩], .refresh, .disc 0] := by
-  simp only [OpsOk, OpOk, DelsOk, List.mem_cons, List.mem_append, List.not_mem_nil, or_false, forall_eq, forall_eq_or_imp, implies_true, and_true]
+  simp only [OpsOk, OpOk, List.mem_cons, List.mem_append, List.not_mem_nil, or_false, forall_eq, forall_eq_or_imp, and_true]
   decide
 
 /-! ## T1 bridges: facts regenerated from the source by `extract` (props/C12/extract.json → `SwV.Gen.C12`)
@@ -1117,18 +1144,32 @@ theorem bridge_add_or_update :
     cases ho : old.remote <;> cases hv : v.remote <;>
       simp [Core.upAdj, Core.nodeUp, upd2, Core.b2i]
 
-/-- the deletions of `DataNode.UpdateVolumes` / `DeltaUpdateVolumes` (`delVol`): -1 volume, -1 remote if remote -/
+/-- the deletions of `DataNode.UpdateVolumes` / `DeltaUpdateVolumes` (`delVol`): -1 volume, -1 remote if remote;
+    `DeltaUpdateVolumes` looks the volume of the (short) deletion message up among the registered volumes of the
+    disk, skips the message when it is not found and asks the REGISTERED volume whether it is remote (`delReg`;
+    the repairs f55c35ee and 4838d419 — reverting either changes a text below) -/
 theorem bridge_delete_volume :
     SwV.Gen.C12.upd_gone = "!ok" ∧ SwV.Gen.C12.upd_gone_vol = "deltaDiskUsage.volumeCount = -1" ∧
     SwV.Gen.C12.upd_gone_remote = "v.IsRemote()" ∧
     SwV.Gen.C12.upd_gone_remote_delta = "deltaDiskUsage.remoteVolumeCount = -1" ∧
+    SwV.Gen.C12.delta_del_lookup = "registered, found := disk.volumes[v.Id]" ∧
+    SwV.Gen.C12.delta_del_skip = "!found" ∧
     SwV.Gen.C12.delta_del_vol = "deltaDiskUsage.volumeCount = -1" ∧
-    SwV.Gen.C12.delta_del_remote = "v.IsRemote()" ∧
+    SwV.Gen.C12.delta_del_remote = "registered.IsRemote()" ∧
     SwV.Gen.C12.delta_del_remote_delta = "deltaDiskUsage.remoteVolumeCount = -1" ∧
     (∀ (c : Core) (s t vid : Nat) (remote : Bool), c.delVol s t vid remote =
-      Core.upAdj { c with vols := upd3 c.vols s t vid none } s t { vol := -1, rem := if remote then -1 else 0 }) := by
-  refine ⟨by decide, by decide, by decide, by decide, by decide, by decide, by decide, fun c s t vid remote => ?_⟩
-  cases remote <;> simp [Core.delVol, Core.b2i]
+      Core.upAdj { c with vols := upd3 c.vols s t vid none } s t { vol := -1, rem := if remote then -1 else 0 }) ∧
+    -- not found: nothing changes
+    (∀ (c : Core) (s : Nat) (v : VInfo), c.vols s v.key.disk v.id = none → c.delReg s v = c) ∧
+    -- found: the registered volume decides about the remote counter, the message's flag is not looked at
+    (∀ (c : Core) (s : Nat) (v registered : VInfo), c.vols s v.key.disk v.id = some registered →
+      c.delReg s v = Core.upAdj { c with vols := upd3 c.vols s v.key.disk v.id none } s v.key.disk
+        { vol := -1, rem := if registered.remote then -1 else 0 }) := by
+  refine ⟨by decide, by decide, by decide, by decide, by decide, by decide, by decide, by decide, by decide,
+    fun c s t vid remote => ?_, fun c s v h => ?_, fun c s v registered h => ?_⟩
+  · cases remote <;> simp [Core.delVol, Core.b2i]
+  · simp [Core.delReg, h]
+  · cases hr : registered.remote <;> simp [Core.delReg, h, Core.delVol, Core.b2i, hr]
 
 /-- `DataNode.AdjustMaxVolumeCounts` (`adjustMax1`) -/
 theorem bridge_adjust_max :
@@ -1165,7 +1206,7 @@ theorem bridge_pins :
     SwV.Gen.C12.src_negative = "e9f92856e93cda2b" ∧
     SwV.Gen.C12.src_doAddOrUpdateVolume = "6b540a4e1cc26df2" ∧
     SwV.Gen.C12.src_UpdateVolumes = "27f7efacbefa0684" ∧
-    SwV.Gen.C12.src_DeltaUpdateVolumes = "e5ca4c58f5844fe7" ∧
+    SwV.Gen.C12.src_DeltaUpdateVolumes = "1545b25ee4d79be7" ∧
     SwV.Gen.C12.src_AdjustMaxVolumeCounts = "de287af7e03e24c1" ∧
     SwV.Gen.C12.src_UpdateEcShards = "446c66596f37f067" ∧
     SwV.Gen.C12.src_doUpdateEcShards = "dfb40d6ff9cb0fb9" ∧
